@@ -1312,10 +1312,14 @@ theorem finalize_ops (ft : FloatText) (e : EW) (tr : String → Option String) (
   | none => simp [hx0] at h
   | some xml0 =>
   cases hx : tr xml0 with
-  | none => simp [hx0, hx] at h
+  | none =>
+    simp only [hx0, hx] at h
+    split at h <;> cases h
   | some xml =>
   refine ⟨xml0, xml, rfl, hx, ?_⟩
   simp only [hx0, hx] at h
+  split at h
+  · cases h
   split at h
   · cases h
   obtain ⟨p1, e1, h⟩ := Outcome.bind_eq_ok h
@@ -2375,18 +2379,18 @@ theorem finalize_crash {e : EW} {c : Cur} {l : List WOp} (h : Reach e c l)
     exact hnoop j cut
 
 open Spec in
-/-- on a reachable state `finalize` fails only for an empty GUID, a failing transformer or XML above
-    10 MiB (which the reader would refuse): the
+/-- on a reachable state `finalize` fails only for an empty GUID, a string with a character XML cannot carry,
+    a failing transformer or XML above 10 MiB (which the reader would refuse): the
     hypothesis `EW.finalize … = .ok e'` of `finalize_crash` is satisfiable for every session -/
 theorem finalize_succeeds {e : EW} {c : Cur} {l : List WOp} (h : Reach e c l)
     (ft : FloatText) (tr : String → Option String) (x0 x : String)
-    (h0 : serializeRoot ft e.root e.pcs e.imgs e.exts = some x0) (h1 : tr x0 = some x)
-    (hsmall : (utf8 x).length ≤ 1024 * 1024 * 10) :
+    (h0 : serializeRoot ft e.root e.pcs e.imgs e.exts = some x0) (hchars : x0.toList.all xmlChar = true)
+    (h1 : tr x0 = some x) (hsmall : (utf8 x).length ≤ 1024 * 1024 * 10) :
     ∃ e', EW.finalize ft e tr = .ok e' := by
   have hpw := (reach_safe h).inv
   have hsmall' : ¬ ((utf8 x).length > 1024 * 1024 * 10) := by omega
   unfold EW.finalize
-  simp only [h0, h1, hsmall', if_false]
+  simp only [h0, hchars, h1, hsmall', if_false, Bool.not_true, Bool.false_eq_true]
   obtain ⟨p1, e1, i1, a1⟩ := pw_writeAll e.pw (utf8 x) hpw
   obtain ⟨p2, e2, i2, a2⟩ := pw_align p1 i1
   obtain ⟨i3, a3, _, _⟩ := pw_size p2 i2
@@ -2411,6 +2415,20 @@ theorem finalize_succeeds {e : EW} {c : Cur} {l : List WOp} (h : Reach e c l)
   simp only [e1, e2, Outcome.bind_ok, e4, e5, hp2, e6, Bool.not_true, Bool.false_eq_true, if_false,
     Outcome.pure_eq]
 
+set_option maxRecDepth 100000 in
+/-- the document of the example session consists of characters XML can carry (evaluated by the kernel) -/
+theorem exE0_chars_all :
+    (serializeRoot (⟨[], []⟩ : FloatText) exE0.root [] [] []).all (fun x => x.toList.all xmlChar) = true := by
+  decide +kernel
+
+theorem exE0_chars (ft : FloatText) (x0 : String) (h : serializeRoot ft exE0.root [] [] [] = some x0) :
+    x0.toList.all xmlChar = true := by
+  have e : serializeRoot ft exE0.root [] [] [] = serializeRoot (⟨[], []⟩ : FloatText) exE0.root [] [] [] := by
+    simp only [serializeRoot, exE0, optS, List.map_nil]
+  have h2 := exE0_chars_all
+  rw [← e, h] at h2
+  exact h2
+
 /-- non-vacuity of `finalize_crash`: the example session can be finalized (identity transformer) — provided
     its XML is at most 10 MiB, which is kept as a hypothesis: the text goes through `cdataEscape` =
     `String.replace`, which the kernel does not evaluate (see `ex_finalize_closed` for an instance without
@@ -2434,7 +2452,7 @@ theorem ex_finalize (ft : FloatText)
   obtain ⟨x0, hx0⟩ := hs
   have hx0' := hx0
   rw [hroot.1, hroot.2.1, hroot.2.2.1, hroot.2.2.2] at hx0'
-  obtain ⟨e', he'⟩ := finalize_succeeds hr ft some x0 x0 hx0 rfl (hsmall x0 hx0')
+  obtain ⟨e', he'⟩ := finalize_succeeds hr ft some x0 x0 hx0 (exE0_chars ft x0 hx0') rfl (hsmall x0 hx0')
   exact ⟨e, b, e', hadd, hr, he'⟩
 
 /-- non-vacuity of `finalize_crash` without any hypothesis: the example session closed by
@@ -2444,18 +2462,21 @@ theorem ex_finalize_closed (ft : FloatText) :
       Reach e .top ([WOp.write hdr0] ++ blobOps w1 exData) ∧
       EW.finalize ft e (fun _ => some "<x/>") = .ok e' := by
   obtain ⟨e, b, _, hadd, hr, _⟩ := ex_session
-  have hroot : e.root = exE0.root := by
+  have hroot : e.root = exE0.root ∧ e.pcs = [] ∧ e.imgs = [] ∧ e.exts = [] := by
     unfold EW.addBlob at hadd
     obtain ⟨⟨pw, b'⟩, _, hadd⟩ := Outcome.bind_eq_ok hadd
     cases hadd
-    rfl
+    exact ⟨rfl, rfl, rfl, rfl⟩
   have hs : ∃ x0, serializeRoot ft e.root e.pcs e.imgs e.exts = some x0 := by
     unfold serializeRoot
-    have : e.root.guid.isEmpty = false := by rw [hroot]; decide
+    have : e.root.guid.isEmpty = false := by rw [hroot.1]; decide
     rw [this]
     exact ⟨_, rfl⟩
   obtain ⟨x0, hx0⟩ := hs
-  obtain ⟨e', he'⟩ := finalize_succeeds hr ft (fun _ => some "<x/>") x0 "<x/>" hx0 rfl (by decide +kernel)
+  have hx0' := hx0
+  rw [hroot.1, hroot.2.1, hroot.2.2.1, hroot.2.2.2] at hx0'
+  obtain ⟨e', he'⟩ := finalize_succeeds hr ft (fun _ => some "<x/>") x0 "<x/>" hx0 (exE0_chars ft x0 hx0') rfl
+    (by decide +kernel)
   exact ⟨e, b, e', hadd, hr, he'⟩
 
 /-! # 10. The hypothesis on the XML front end cannot be weakened -/
